@@ -240,6 +240,57 @@ func (h *c14Hook) PrePut(r record.Record) (record.Record, error) {
 	return r, nil
 }
 
+// a hook registered with a condition on the record: the phases that see the
+// record (after loading, before storing) are called only for records that
+// satisfy it; the phase before loading goes by the key alone
+func VerifC14_HookQueryCondition() {
+	rt.NoTimers()
+	c := c14Setup()
+	iface := NewInterface(&Options{Local: true, Internal: true})
+	n := int64(3 + 4*rt.Choice("n", 2)) // 3 or 7
+	key := []string{"a/x", "b/x"}[rt.Choice("key", 2)]
+	stored := c14NewRec(key, n, false, false)
+	_, _ = c.storage.Put(stored)
+	h := &c14Hook{pre: true, post: true, put: true}
+	_, err := RegisterHook(query.New("t:a/").Where(query.Where("N", query.GreaterThan, 5)), h)
+	rt.Assert(err == nil, "hookcond/register-ok")
+	keyMatches := key == "a/x"
+	recMatches := keyMatches && n > 5
+	count := func(phase string) int {
+		k := 0
+		for _, cl := range h.calls {
+			if cl == phase {
+				k++
+			}
+		}
+		return k
+	}
+	want := func(b bool) int {
+		if b {
+			return 1
+		}
+		return 0
+	}
+	switch rt.Choice("op", 4) {
+	case 0:
+		_, err := iface.Get("t:" + key)
+		rt.Assert(err == nil, "hookcond/get-ok")
+		rt.Assert(count("preget") == want(keyMatches), "hookcond/preget-goes-by-the-key")
+		rt.Assert(count("postget") == want(recMatches), "hookcond/postget-only-for-records-matching-the-condition")
+		rt.Assert(count("preput") == 0, "hookcond/no-put-phase-on-get")
+	case 1:
+		rt.Assert(iface.Put(c14NewRec(key, n, false, false)) == nil, "hookcond/put-ok")
+		rt.Assert(count("preput") == want(recMatches), "hookcond/preput-only-for-records-matching-the-condition")
+	case 2:
+		rt.Assert(iface.Delete("t:"+key) == nil, "hookcond/delete-ok")
+		rt.Assert(count("preput") == want(recMatches), "hookcond/preput-only-for-records-matching-the-condition")
+	case 3:
+		rt.Assert(iface.MakeSecret("t:"+key) == nil, "hookcond/makesecret-ok")
+		rt.Assert(count("preput") == want(recMatches), "hookcond/preput-only-for-records-matching-the-condition")
+	}
+	rt.Reach("hookcond-end")
+}
+
 func VerifC14_Hooks() {
 	rt.NoTimers()
 	c := c14Setup()
